@@ -953,6 +953,21 @@ pub fn gen_state_desc_ext(rng: &mut Rng, dense: bool, ext: bool) -> String {
             gtok = format!("{}+", g);
             length *= 1.6 * nsites as f64;
         }
+        // a custom list of symmetry operations (four- / three-fold rotations: linear parts that are not
+        // symmetric matrices), on a square cell or on whatever cell was drawn
+        3 => {
+            let name = *rng.pick(&["p4", "p3", "p4g"]);
+            if rng.chance(1, 2) {
+                gtok = format!("{}!{}@Tetragonal", g, name);
+                if ratio <= 0.1 { length = rng.range(1.2, 3.5) * n.sqrt(); }
+                ratio = 1.0;
+                angle = pi / 2.0;
+            } else {
+                gtok = format!("{}!{}", g, name);
+            }
+            length *= 1.5;
+        }
+
         _ => {}
     }
     let mut sites = vec![format!("{} {} {}", fhex(gen_site_coord(rng)), fhex(gen_site_coord(rng)), fhex(a))];
